@@ -182,8 +182,85 @@ def check_case(run, case, tier='quick'):
         session.drop_session(sn)
         repo.drop_rules(name)
 
+def stress_spec(rng):
+    """~150 000 guesses: long enough (about a second) for a quit typed at a random moment to land somewhere in the middle."""
+    def rows(vals, ng):
+        return rulesets.rows_grouped(rng, vals, ng, rng.choice(['random', 'counts', 'decimal']))
+    d2 = ['%02d' % i for i in rng.sample(range(100), 40)]
+    d3 = ['%03d' % i for i in rng.sample(range(1000), 100)]
+    a3 = rng.sample(['cat', 'dog', 'abc', 'fox', 'sun', 'pie', 'owl', 'кот', 'été', 'bee', 'ant', 'elk'], 10)
+    terms = {'D2': rows(d2, 8), 'D3': rows(d3, 10), 'A3': rows(a3, 5), 'C3': rows(['LLL', 'ULL', 'UUU'], rng.choice([2, 3])), 'O1': rows(list('!@#$%.'), 3)}
+    base = [['A3D2D3', 0.4], ['A3D3O1', 0.35], ['D2O1', 0.15], ['A3', 0.1]]
+    return {'encoding': 'utf-8', 'uuid': 'stress-%08x' % rng.getrandbits(32), 'base': base, 'prince': [], 'terms': terms, 'omen': None}
+
+def check_cli_stress(run, case):
+    """Real processes, real timing: q is typed into the pipe of the running CLI after a random delay, the session is resumed with --load
+    (possibly interrupted again); only the stdout streams and the .sav file are judged."""
+    import random, time
+    from .. import cli
+    from .c15 import pops_with_guesses
+    rng = random.Random(case['hseed'])
+    name, path = gstream.materialise(case['spec'], 'c08s')
+    sn = session.new_session_name('c08s')
+    try:
+        U = session.run_main(['-r', name, '-s', sn + 'ref'])
+        Upg = pops_with_guesses(U)
+        need = Counter(U.guesses)
+        prob_of = {}
+        for key, prob, gs in Upg:
+            for g in gs:
+                prob_of.setdefault(g, set()).add(prob)
+        streams, saved = [], []
+        for cyc in range(rng.randint(1, 3) + 1):
+            last = False
+            delay = rng.uniform(0.05, 0.9)
+            args = ['-r', name, '-s', sn] + (['--load'] if cyc else [])
+            out, err, rc, to = cli.run_cli('pcfg_guesser.py', args, stdin_mode='timed', data=[(delay, b'q\n')], timeout=300, max_out=256 << 20)
+            run.ev('cli_runs'); run.ev('cli_stress_runs')
+            if to:
+                run.inconc('cli watchdog'); return
+            lines = out.decode('utf-8').split('\n')
+            if lines[-1] != '':
+                run.violation('stress: stdout of an interrupted run does not end with a complete line', case, observed=lines[-1][:50]); return
+            lines.pop()
+            streams.append(lines)
+            done = b'Done processing' in err
+            if done:
+                break
+            cfg = session.read_sav(sn)
+            saved.append(cfg.getfloat('guessing_info', 'max_probability'))
+            run.ev('cli_quits_mid_run')
+        else:
+            # still interrupted after the last cycle: finish it
+            out, err, rc, to = cli.run_cli('pcfg_guesser.py', ['-r', name, '-s', sn, '--load'], stdin_mode='open', timeout=300, max_out=256 << 20)
+            run.ev('cli_runs')
+            if to:
+                run.inconc('cli watchdog'); return
+            streams.append(out.decode('utf-8').split('\n')[:-1])
+        if streams[0] != U.guesses[:len(streams[0])]:
+            run.violation('stress: the interrupted first run is not a prefix of the uninterrupted stream', case); return
+        have = Counter()
+        for st in streams:
+            have.update(st)
+        lost = need - have
+        if lost:
+            run.violation(f'stress (real processes, q after random delays): {sum(lost.values())} guesses lost over {len(streams)} runs', case,
+                          observed={'lost': list(lost.elements())[:6], 'saved_positions': [repr(x) for x in saved], 'run_lengths': [len(x) for x in streams]}); return
+        surplus = have - need
+        bad = [g for g in surplus if not (prob_of.get(g, set()) & set(saved))]
+        if bad:
+            run.violation('stress: guesses repeated although their pre-terminal does not tie with any saved position', case,
+                          observed={'repeated': bad[:6], 'saved_positions': [repr(x) for x in saved]}); return
+        run.case(h(['stress', case['spec']['uuid'], [len(x) for x in streams]]) if len(streams) >= 2 else None)
+        run.sample({'stress': case.get('label', 'cli'), 'total_guesses': len(U.guesses), 'run_lengths': [len(x) for x in streams], 'saved_positions': [repr(x) for x in saved]}, force=True)
+    finally:
+        for f in os.listdir(repo.scratch()):
+            if f.startswith(sn) and f.endswith(('.sav', '.omn')):
+                os.remove(os.path.join(repo.scratch(), f))
+        repo.drop_rules(name)
+
 def run(run, rng):
-    run.required_events = ['POP', 'restores', 'main_runs', 'SAVE', 'histories']
+    run.required_events = ['POP', 'restores', 'main_runs', 'SAVE', 'histories', 'cli_stress_runs']
     run.min_distinct = 20
     run.exhaustive = True
     run.extra['exhaustive_scope'] = 'all cut points k of every explored ruleset with <= 400 pre-terminals (restore path); histories via main() are sampled'
@@ -193,6 +270,12 @@ def run(run, rng):
     for i in range(N[run.tier]):
         case = gen_case(rng)
         run.guard(case, check_case, run.tier, seconds=120)
+    nstress = (1 if run.shard[0] == 0 else 0) if run.tier == 'quick' else 2
+    for i in range(nstress):
+        run.guard({'spec': stress_spec(rng), 'hseed': rng.getrandbits(32), 'stress': True}, check_cli_stress, seconds=900)
 
 def replay(run, case):
-    check_case(run, case['case'], 'thorough')
+    if case['case'].get('stress'):
+        check_cli_stress(run, case['case'])
+    else:
+        check_case(run, case['case'], 'thorough')
